@@ -265,7 +265,8 @@ func (p *notifier) Run() error {
 	// do outside of main loop to prevent long running read
 	for _, event := range readyToRetry {
 		if err := p.notifyNow(event); err != nil {
-			if event.Retries < maxRetries {
+			// as in Notify: an event whose receiver reported a fatal error is not retried
+			if event.Retries < maxRetries && !errors.As(err, new(EventFatal)) {
 				failedAtStartup = append(failedAtStartup, event)
 			}
 		}
